@@ -408,4 +408,37 @@ def r7_9(ctx):
     ctx.floor(n, 3, "definitions of widths in _calculate_column_widths")
 
 
-RULES = [r7_1, r7_2, r7_3, r7_4, r7_5, r7_6, r7_7, r7_8, r7_9]
+def r7_10(ctx):
+    from .common import memo_rule
+    memo_rule(ctx, "R7.10", ["table", "_ratio", "box"], 0)
+
+
+def r7_11(ctx):
+    ctx.rule("R7.11", "content widths vs padded widths: the measurement Table._measure_column returns includes the cell padding (cells are measured inside their Padding), while column.width / min_width / max_width are widths of the CONTENT; wherever one of them enters the measurement (Measurement(..), .clamp(..), min / max with it) it is `column.<w> + padding_width` with padding_width = self._get_padding_width(column._index) - a cap applied without the padding leaves no room for the content (max_width <= padding renders the column empty)")
+    from ..astutil import inline as _inl, single_defs as _sdf
+    f = ctx.repo.fn("table:Table._measure_column")
+    m = f.module
+    colp = f.params[2]
+    sd = _sdf(f.node)
+    n = 0
+    for x in walk_local(f.node):
+        if not (isinstance(x, ast.Attribute) and isinstance(x.value, ast.Name) and x.value.id == colp and x.attr in ("width", "min_width", "max_width") and isinstance(x.ctx, ast.Load)):
+            continue
+        par = m.parent_of.get(x)
+        # tests of presence:  column.w is None / is not None / truthiness in a condition
+        if isinstance(par, ast.Compare) and all(isinstance(o, (ast.Is, ast.IsNot)) for o in par.ops):
+            continue
+        if isinstance(par, (ast.If, ast.IfExp, ast.While)) and par.test is x:
+            continue
+        n += 1
+        where = f"{m.relpath}:{x.lineno}"
+        ok = False
+        if isinstance(par, ast.BinOp) and isinstance(par.op, ast.Add):
+            other = par.right if par.left is x else par.left
+            ok = norm(_inl(other, sd)) == f"self._get_padding_width({colp}._index)"
+        ctx.check(ok, f.fq, short(par if isinstance(par, ast.AST) else x), where, f"`{norm(x)}` enters the measurement with the padding added",
+                  f"`{norm(x)}` is used as a padded width in `{short(par) if par is not None else norm(x)}`: the column's configured width is the width of its content, the measurement includes the padding - a column with max_width=1 and the default padding is rendered with no room for its content and every character of the cell disappears")
+    ctx.floor(n, 3, "uses of column.width / min_width / max_width in _measure_column")
+
+
+RULES = [r7_1, r7_2, r7_3, r7_4, r7_5, r7_6, r7_7, r7_8, r7_9, r7_10, r7_11]
